@@ -1,5 +1,6 @@
 import Driver.Sexp
 import BoolFn.Spec.Check
+import BoolFn.Spec.Recipe
 /-! Judging *law instances*: observations of the implementation on functions too large for the
     executable model (17 … 70 variables), checked against the conclusions of the model's theorems:
 
@@ -31,8 +32,6 @@ def shapeOk (kind : String) (names : List String) (nv : Nat) (valid : Bool) : Bo
   isStrictSorted names && valid && (kind == "E" || nv == names.length)
 
 /-! the recipe (a DNF given by its clauses) evaluated by the driver: the independent reference -/
-abbrev Clause := List (String × Bool)
-
 def decClauses : Sexp → List Clause
   | list (atom "C" :: cls) => cls.map fun
     | list lits => lits.map fun
@@ -40,9 +39,6 @@ def decClauses : Sexp → List Clause
       | _ => ("?", false)
     | _ => []
   | _ => []
-
-def evalRecipe (cs : List Clause) (look : String → Option Bool) (dflt : Bool) : Bool :=
-  cs.any fun c => c.all fun (v, p) => (look v).getD dflt == p
 
 def recipeVars (cs : List Clause) : List String := sortDedup (cs.flatMap fun c => c.map (·.1))
 
@@ -60,10 +56,6 @@ def onlyClause (cs : List Clause) (j : Nat) : String → Option Bool := fun v =>
 
 def missingVar (v : String) : Bool :=
   v != "zz" && ((v.drop 1).toString.toNat?.map (· % 5 == 0)).getD false
-
-def sameClauseSet (a b : List Clause) : Bool :=
-  a.all (fun c => b.any fun d => c.all d.contains && d.all c.contains) &&
-  b.all (fun c => a.any fun d => c.all d.contains && d.all c.contains)
 
 def lawJudge (op : String) (args : List Sexp) (impl : Sexp) : Bool × String :=
   let kind := match args with | atom k :: _ => k | _ => "?"
